@@ -121,16 +121,17 @@ FloatStatus(m, t) ==
      ELSE IF Len(sh.fr) > 0 /\ ~DigitsOK(sh.fr, radix) THEN "invalid"
      ELSE IF sh.hasEx /\ (sh.mark \notin marks \/ ~sh.hasEd \/ ~ExpOK(sh.ed)) THEN "invalid"
      ELSE "valid"
-\* the value as a rational, the precision in digits of the macro's base
+\* the value as [neg, m (BigNat), e (native)] meaning (-1)^neg * m * B^e with B the base of the macro (2 or 10);
+\* hexadecimal digits are four binary digits each.  No power of the base is ever formed from the exponent field,
+\* so literals such as 1.01B-100000 stay cheap.
 FloatValue(m, t) ==
   LET sh == FloatShape(t)
       radix == IF MDec(m) THEN 10 ELSE IF sh.hex THEN 16 ELSE 2
-      B == IF MDec(m) THEN 10 ELSE 2
-      mant == NatOf(sh.int \o sh.fr \o <<48>>, radix)            \* mantissa * radix
+      per == IF sh.hex THEN 4 ELSE 1                              \* base-B digits per literal digit
+      mant == NatOf(sh.int \o sh.fr \o <<48>>, radix)            \* mantissa * radix (keeps the digit string non-empty)
       nfr == Len(Pure(sh.fr)) + 1
       e == IF sh.hasEx THEN ExpOf(sh.eneg, sh.ed) ELSE 0
-      q0 == Q(I(IF sh.neg THEN 1 ELSE 0, mant), Pow(FromNat(radix), nfr))
-  IN QMul(q0, QPowBase(B, e))
+  IN [neg |-> sh.neg /\ mant # <<>>, m |-> mant, e |-> e - per * nfr]
 FloatPrecision(m, t) ==
   LET sh == FloatShape(t) IN (Len(Pure(sh.int)) + Len(Pure(sh.fr))) * (IF sh.hex THEN 4 ELSE 1)
 
@@ -187,13 +188,22 @@ Status(m, t) == IF MInt(m) THEN IntStatus(m, t) ELSE IF MRat(m) THEN RatStatus(m
 Valid(m, t) == Status(m, t) = "valid"
 \* Value(m, t): BigInt for the integer macros, Rat otherwise
 IntVal(m, t) == IntValue(t)
-RatVal(m, t) == IF MRat(m) THEN RatValue(t) ELSE FloatValue(m, t)
+RatVal(m, t) == RatValue(t)
+FloatVal(m, t) == FloatValue(m, t)
 Precision(m, t) == FloatPrecision(m, t)
 
 \* ------------------------------------------------------------------ observed results against the definition
 (* o: what a program printed: integers [s, m]; floats [sig, exp (native), prec (native)]; rationals [num, den] *)
-FloatObsValue(m, o) == LET B == IF MDec(m) THEN 10 ELSE 2 IN
-  IF o.exp >= 0 THEN Q(IMul(o.sig, IFromNat(Pow(FromNat(B), o.exp))), One) ELSE Q(o.sig, Pow(FromNat(B), -o.exp))
+\* observed float [sig, exp, prec] equals the defined value v = [neg, m, e]: same sign, and after aligning the two
+\* exponents (they differ by the number of trailing zero digits only; a larger gap means a different number) the
+\* same magnitude
+FloatSame(m, o, v) ==
+  LET B == IF MDec(m) THEN 10 ELSE 2
+      d == v.e - o.exp
+  IN IF v.m = <<>> \/ o.sig.m = <<>> THEN v.m = <<>> /\ o.sig.m = <<>>
+     ELSE /\ (o.sig.s = 1) = v.neg
+          /\ d >= -20000 /\ d <= 20000
+          /\ IF d >= 0 THEN Mul(v.m, Pow(FromNat(B), d)) = o.sig.m ELSE v.m = Mul(o.sig.m, Pow(FromNat(B), -d))
 \* the relaxed form only removes common powers of two; the canonical form is in lowest terms
 ObsWhy(m, t, o, who) ==
   IF MInt(m) THEN (IF IsInt(o) THEN (IF IEq(o, IntVal(m, t)) THEN "" ELSE who \o "-value-differs") ELSE who \o "-malformed")
@@ -203,7 +213,7 @@ ObsWhy(m, t, o, who) ==
       ELSE IF ~RatIsRelaxed(t) /\ ~QCanonical(Q(o.num, o.den)) THEN who \o "-not-in-lowest-terms"
       ELSE "")
   ELSE (IF ~IsInt(o.sig) THEN who \o "-malformed"
-        ELSE IF ~QEq(FloatObsValue(m, o), RatVal(m, t)) THEN who \o "-value-differs"
+        ELSE IF ~FloatSame(m, o, FloatVal(m, t)) THEN who \o "-value-differs"
         ELSE IF o.prec = Precision(m, t) THEN ""
         \* static_fbig! / static_dbig! are documented to "have a unlimited precision"
         ELSE IF who = "macro" /\ MStatic(m) /\ o.prec = 0 THEN ""
